@@ -61,6 +61,7 @@ type Node struct {
 	NumVB       int // simulated vbuckets for feed ordering (power of two)
 	FeedWorkers int
 	ReadFaults  bool          // offer fault alternatives on reads too
+	QueryFaults bool          // offer the error alternative on view queries
 	StallFor    time.Duration // how long a "stall" fault holds an operation (default 8s)
 	NoFaultKeys func(key string) bool
 }
@@ -105,6 +106,9 @@ func (n *Node) Down() bool { return n.down.Load() }
 
 // KeyClass abstracts a storage key.
 func KeyClass(key string) string {
+	if strings.HasPrefix(key, "query:") {
+		return "query"
+	}
 	if !strings.HasPrefix(key, "_sync:") {
 		return "doc"
 	}
@@ -241,6 +245,8 @@ func (ds *DataStore) pre(op, key string, kind opKind) (alt string, idx int, err 
 		case opRead:
 			if n.ReadFaults {
 				pp.Alts = []string{AltErr, AltCrashBefore}
+			} else if n.QueryFaults && pp.Class == "query" {
+				pp.Alts = []string{AltErr}
 			}
 		case opWrite:
 			pp.Alts = []string{AltErr, AltTimeoutApplied, AltTimeoutLost, AltCrashBefore, AltCrashAfter, AltStall}
@@ -378,6 +384,52 @@ func (ds *DataStore) fail(op, key string, kind opKind, alt string, idx int, err 
 }
 
 // --- KV reads
+
+// View queries: one park point before the query is evaluated and one before its answer reaches the caller, so that
+// writes (and the feed events they cause) can land while the query is in flight and are then not in its answer.
+func (ds *DataStore) ViewQuery(ctx context.Context, ddoc, name string, params map[string]any) (sgbucket.QueryResultIterator, error) {
+	key := "query:" + ddoc + "/" + name
+	alt, idx, err := ds.pre("ViewQuery", key, opRead)
+	if err != nil {
+		return nil, ds.fail("ViewQuery", key, opRead, alt, idx, err)
+	}
+	it, qerr := ds.ViewStore.ViewQuery(ctx, ddoc, name, params)
+	ds.answerInFlight("ViewQueryReturn", key)
+	if perr := ds.post("ViewQuery", key, opRead, alt, idx, qerr); perr != nil {
+		if it != nil && qerr == nil {
+			_ = it.Close(ctx)
+		}
+		return nil, perr
+	}
+	return it, nil
+}
+
+func (ds *DataStore) View(ctx context.Context, ddoc, name string, params map[string]any) (sgbucket.ViewResult, error) {
+	key := "query:" + ddoc + "/" + name
+	alt, idx, err := ds.pre("View", key, opRead)
+	if err != nil {
+		return sgbucket.ViewResult{}, ds.fail("View", key, opRead, alt, idx, err)
+	}
+	res, qerr := ds.ViewStore.View(ctx, ddoc, name, params)
+	ds.answerInFlight("ViewReturn", key)
+	if perr := ds.post("View", key, opRead, alt, idx, qerr); perr != nil {
+		return sgbucket.ViewResult{}, perr
+	}
+	return res, nil
+}
+
+// answerInFlight is the second park point of a query (no fault alternatives).
+func (ds *DataStore) answerInFlight(op, key string) {
+	n := ds.node
+	if n.down.Load() {
+		return
+	}
+	s := verifsim.Current()
+	if s == nil || s != n.Sim {
+		return
+	}
+	s.Park(&verifsim.ParkPoint{Kind: "kv", Op: op, Key: key, Class: "query"})
+}
 
 func (ds *DataStore) Get(ctx context.Context, k string, rv any) (cas uint64, err error) {
 	alt, idx, ferr := ds.pre("Get", k, opRead)
